@@ -73,6 +73,20 @@ fn op_json(line: &str, args: &[SExp]) -> CaseResult {
     let mut s = String::new();
     show_json(&val, &mut s);
     let mut oracle = None;
+    // history on this thread first: forty rejected documents (prefixes of this one, most of them cut inside nested values),
+    // then the document itself - what was rejected before must not change how a valid document is read
+    let mut accepted_prefix = None;
+    if text.len() > 41 {
+        for i in 1..=40usize {
+            let mut cut = text.len() * i / 41;
+            while !text.is_char_boundary(cut) {
+                cut -= 1;
+            }
+            if serde_json::from_str::<IppRequestResponse>(&text[..cut]).is_ok() {
+                accepted_prefix = Some(cut);
+            }
+        }
+    }
     let back: Result<IppRequestResponse, _> = serde_json::from_str(&text);
     let rt = match back {
         Ok(b) => {
@@ -101,6 +115,9 @@ fn op_json(line: &str, args: &[SExp]) -> CaseResult {
     };
     if val.get("payload").is_some() {
         oracle = Some("the payload was serialised".into());
+    }
+    if let (None, Some(cut)) = (&oracle, accepted_prefix) {
+        oracle = Some(format!("the first {} octets of the {}-octet JSON document were accepted as a complete message", cut, text.len()));
     }
     CaseResult { line: line.into(), result: format!("{} {}", s, rt), oracle, class: "json".into() }
 }
